@@ -3,6 +3,7 @@ package props
 import (
 	"calcsa/engines/enc"
 	"calcsa/engines/lexfsm"
+	"calcsa/engines/own"
 	"calcsa/engines/txn"
 	"calcsa/engines/valtab"
 	"calcsa/engines/vmshape"
@@ -14,6 +15,8 @@ func init() {
 
 	RegisterEngine(&Engine{Name: "enc", Run: enc.Run})
 	engineKinds["enc"] = "bit-field decomposition of the symbolically evaluated encoder / decoder functions; writer and reader compared field by field"
+	RegisterEngine(&Engine{Name: "own", Run: own.Run})
+	engineKinds["own"] = "symbolic effects of every memory.Type method (fields, element stores, results) compared with the frame layout, growth and ownership rules"
 	RegisterEngine(&Engine{Name: "txn", Run: txn.Run})
 	engineKinds["txn"] = "typestate of Snapshot/Rollback/Commit on every path of every combinator closure against an abstract input; symbolic effect of the TLexer primitives"
 	RegisterEngine(&Engine{Name: "valtab", Run: valtab.Run})
@@ -63,6 +66,45 @@ func init() {
 		Technique:  "typestate analysis by abstract interpretation of every combinator closure against an abstract transactional input (symbolic position, sub-parsers as unknown functions that fork into success/failure)",
 		Decides:    "on every path through every combinator (sub-parsers unknown, up to 7 sub-parser calls per path, variadic combinators with 1-3 arguments): snapshot balance, rollback of swallowed failures, retention of consumed input on success, non-consumption of look-ahead; the exact effect of the three TLexer primitives and of its accessors and Next on the symbolic lexer state.",
 		NotDecided: "the replay law of TLexer over arbitrary operation histories (an inductive invariant over readp/writep); equivalence with an ordered-choice recogniser on all token streams.",
+	})
+	RegisterSpec(&Spec{
+		ID: "C18", Title: "Frames are isolated under any growth: a variable holds its last written value",
+		Rules: []RuleRef{
+			{"own", "O2", 12, "a forked / recycled memory shares no growable storage (closure stack, value stack, frame pointers) with its donor"},
+			{"own", "O4", 8, "a recycled memory is extended to the length needed and not consulted while it holds stale state"},
+			{"own", "O5", 2, "room is ensured before a slot at or above sp is written"},
+			{"own", "O5c", 2, "growStack leaves the stack alone only below its length and appends at least the requested size"},
+			{"own", "O8", 20, "frame layout: PushFrame writes (start, end), every reader uses the same pair; locals nil-initialised; clone copies the whole frame"},
+			{"vmshape", "V7", 6, "CALL pushes frame, closure, return address; RET pops them symmetrically"},
+			{"enc", "E6", 3, "the function value counts every local the encoding can address"},
+		},
+		Technique:  "abstract interpretation of every memory.Type method over a symbolic memory; the symbolic effects (fields, element stores, copies) are compared with the frame layout and growth rules",
+		Decides:    "for all sp / fp / stack contents: the effect of each memory operation on sp, fp, closure and stack, that room is ensured before writes above sp, that the frame pair written by PushFrame is the one every reader uses, that new locals are nil, that a clone owns its growable storage and receives the whole top frame, and that the VM's CALL/RET use these operations symmetrically.",
+		NotDecided: "equivalence with a reference memory model over all operation histories; absence of index-out-of-range for local indices beyond LocalCnt (depends on the symbol table rewrite, S-rules).",
+	})
+	RegisterSpec(&Spec{
+		ID: "C03", Title: "Functions are pure: same arguments, same result, whatever happened before",
+		Rules: []RuleRef{
+			{"vmshape", "O3", 1, "the set of places where a live slice of the reallocating value stack is captured into a value"},
+			{"vmshape", "V13", 2, "a returned function value gets a private copy of its captured frame before the frame is popped"},
+			{"vmshape", "V7", 6, "FUNC captures the current frame; CALL/RET symmetric"},
+			{"own", "O2", 12, "forked contexts own their closure stack and value stack"},
+			{"own", "O4", 8, "recycled contexts are re-initialised and long enough"},
+			{"own", "O8", 20, "new locals are nil-initialised whatever the stack held before"},
+		},
+		Technique:  "abstract interpretation of the VM handlers FUNC/CALL/RET and of memory.Clone/PushFrame; provenance of captured slices",
+		Decides:    "only the storage mechanisms the property is anchored in: where captured aliases of the growing value stack originate (exactly one site, a known finding), that a function value is detached from the frame it was created on when it is returned, that recycled or forked memories cannot leak earlier state into a call (own storage, nil-initialised locals, full re-initialisation).",
+		NotDecided: "purity itself (equal arguments give equal results over all histories): that is a statement about run-time aliasing after arbitrary growth, which no static rule here decides.",
+	})
+	RegisterSpec(&Spec{
+		ID: "C10", Title: "Values are immutable: operations never alter operands or program constants",
+		Rules: []RuleRef{
+			{"vmshape", "O1", 1, "ARR appends to a private copy of its array operand; no handler stores into the data segment or a payload"},
+			{"valtab", "A1", 900, "array + array builds a new array from a clone of the left payload; slicing and indexing only read"},
+		},
+		Technique:  "symbolic effects of the VM handlers and of the value operators; the result expressions show whether a payload is cloned before it is appended to",
+		Decides:    "the Go-level condition: every place where a new array is built from an existing payload (ARR, array concatenation) appends to a clone, indexing and slicing only read, and no instruction handler stores into the data segment or into a payload. calc has no element assignment, so these are the only ways a value could change.",
+		NotDecided: "aliasing introduced through unsafe pointer arithmetic outside the payload accessors; the compiler's constant folding of array literals (B-rules).",
 	})
 	RegisterSpec(&Spec{
 		ID: "C19", Title: "Runtime error reports point at the real failure",
